@@ -192,6 +192,7 @@ def run(chk, which="C09"):
     jobs += [(si, [x for x in sh if "run_arith" in x["code"]], "G_trap", "c++20") for si, sh in enumerate(shards) if tier != "quick" or si < 6]
     jobs = [j for j in jobs if j[1]]
     results = core.pmap(lambda j: (j[2] + ":" + j[3], build_and_run(j[0], j[1], decls, j[2], nrandom, dropped, std=j[3])), jobs)
+    core.reach(chk, emit_tu([x for x in insts if x["id"] not in {d["id"] for d in dropped}][::9][:40], decls), [[40, 1]], std="c++20")
     P = probes()
     pre = INC + "#include <type_traits>\n"
     cfgs = [(core.GXX, "c++14"), (core.CLANGXX, "c++20")] if tier == "quick" else core.CONFIGS
